@@ -12,7 +12,8 @@ from core import q
 warnings.simplefilter('ignore')
 
 REQUIRED = ['adjOrder_length', 'adjOrder_mem', 'adjOrder_symmetric', 'adjOrder_values', 'adjOrder_outward', 'adjOrder_head',
-            'shiftPts_spec', 'nasuOps_count', 'wg_file_structure', 'wg_bunch_compiles', 'outFile_empty', 'outFile_name', 'countOpen_append', 'repeat_multiplies']
+            'shiftPts_spec', 'nasuOps_count', 'wg_file_structure', 'wg_bunch_compiles', 'outFile_empty', 'outFile_name', 'countOpen_append', 'repeat_multiplies',
+            'execStmts_atoms', 'write_atoms', 'writes_pass', 'execRep_scans', 'group_scans_replayed', 'wg_groups_replayed', 'nasu_passes_replayed']
 RULE = ('stream adj: NasuWaveguide.adj_scan_order for every adj_scan in 1..64 (exhaustive over that range) compared exactly with the '
         'model and judged directly (length, symmetric, unit spacing, outward).  stream writers: real WaveguideWriter / NasuWriter / '
         'MarkerWriter on random object lists (scans 1..7, groups of equal scan, adj_scan 1..9 odd and even, 3-D shifts, empty '
@@ -209,6 +210,22 @@ def run_writers(ctx):
                                  gcommon.canon_events(model['prog']['events'], kinds=('m', 'd')), tol)
         if d:
             ctx.fail('corr' if not exact else 'spec', 'writers', case, f'interpreted trace differs from the model session: {d}', 'trace')
+            continue
+        # spec-on-implementation at the level of the machine's moves: what theorems wg_groups_replayed / nasu_passes_replayed /
+        # mk_scans_replayed promise (groupsFrom of the printed matrices, from where the session head leaves the machine) must be
+        # what the reference controller does with the real file, right after the moves of the session head
+        sp = model.get('spec')
+        if sp is None:
+            ctx.count('writers.spec_moves', 'not-printable')
+            continue
+        ctx.count('writers.spec_moves', 'compared')
+        im = gcommon.canon_events(impl['events'], kinds=('m',))
+        want_m = gcommon.canon_events(sp['moves'], kinds=('m',))
+        k = sp['skip']
+        d = gcommon.close_events(im[k:k + len(want_m)], want_m, tol)
+        if d:
+            ctx.fail('spec', 'writers', {**case, 'skip': k}, f'the file does not perform scans x passes of the printed structures (groupsFrom): {d}',
+                     'scan-replay')
 
 
 def _dyadic(o):
